@@ -201,6 +201,22 @@ class State:
         return s
 
 
+def _is_vals(v) -> bool:
+    return isinstance(v, tuple) and len(v) >= 3 and v[0] == "obj" and v[1] == "vals"
+
+
+class _CmpTypeError:
+    """Outcome of a test whose evaluation raises TypeError (ordering comparison with None)."""
+    def __bool__(self):
+        return False
+
+    def __repr__(self):
+        return "CMP_TYPEERROR"
+
+
+CMP_TYPEERROR = _CmpTypeError()
+
+
 class Evaluator:
     def __init__(self, prog: Program, res: Resolver):
         self.prog, self.res = prog, res
@@ -251,6 +267,19 @@ class Evaluator:
             if isinstance(s.value, ast.Constant):
                 yield st, ("fall",)
                 return
+            c_ = s.value
+            if isinstance(c_, ast.Call) and isinstance(c_.func, ast.Attribute) and c_.func.attr == "append" and isinstance(c_.func.value, ast.Name) \
+                    and len(c_.args) == 1 and not c_.keywords and _is_vals(st.env.get(c_.func.value.id)):
+                # fields.append(<read>): the local list grows by one element (lists built in a constant loop)
+                for st2, v in self.expr(c_.args[0], st, fn, depth):
+                    if v[0] == "typeerror":
+                        yield st2, ("raise", "TypeError")
+                        continue
+                    st3 = st2.copy()
+                    cur = st3.env[c_.func.value.id]
+                    st3.env[c_.func.value.id] = obj("vals", tuple(cur[2]) + (v,))
+                    yield st3, ("fall",)
+                return
             for st2, v in self.expr(s.value, st, fn, depth):
                 yield st2, (("raise", "TypeError") if v[0] == "typeerror" else ("fall",))
             return
@@ -296,8 +325,9 @@ class Evaluator:
             if s.exc is not None:
                 e = s.exc.func if isinstance(s.exc, ast.Call) else s.exc
                 name = norm(e)
-                if isinstance(e, ast.Attribute) and isinstance(e.value, ast.Name) and e.value.id in ("self", "cls"):
-                    # raise self._make_error(...): the class the helper builds
+                b_ = self.prog.lookup(fn.module, e.id) if isinstance(e, ast.Name) else None
+                if (isinstance(e, ast.Attribute) and isinstance(e.value, ast.Name) and e.value.id in ("self", "cls")) or (b_ is not None and b_[0] == "func"):
+                    # raise self._make_error(...) / raise _make_error(...): the class the helper builds
                     try:
                         cl = self.prog.resolve_exc_expr(fn.module, e)
                         if len(cl) == 1:
@@ -308,11 +338,33 @@ class Evaluator:
             return
         if isinstance(s, ast.If):
             for st2, truth in self.cond(s.test, st, fn, depth):
+                if truth is CMP_TYPEERROR:
+                    yield st2, ("raise", "TypeError")
+                    continue
                 yield from self.block(s.body if truth else s.orelse, st2, fn, depth)
             return
         if isinstance(s, ast.Pass):
             yield st, ("fall",)
             return
+        if isinstance(s, ast.For) and not s.orelse and not any(isinstance(x, (ast.Break, ast.Continue)) for x in ast.walk(s)):
+            try:
+                items = list(self.prog.consteval(s.iter, fn.module))
+            except (NotConst, TypeError):
+                items = None
+            if items is not None and len(items) <= 64:
+                def loop_rec(i, s_):
+                    if i == len(items):
+                        yield s_, ("fall",)
+                        return
+                    s2 = s_.copy()
+                    self.store(s.target, NONE if items[i] is None else const(items[i]), s2)
+                    for s3, oc in self.block(s.body, s2, fn, depth):
+                        if oc[0] == "fall":
+                            yield from loop_rec(i + 1, s3)
+                        else:
+                            yield s3, oc
+                yield from loop_rec(0, st)
+                return
         if isinstance(s, (ast.For, ast.While, ast.Try, ast.With)):
             st2 = st.copy()
             st2.notes = st2.notes + ("unmodelled %s at line %d of %s" % (type(s).__name__, s.lineno, fn.short),)
@@ -344,10 +396,10 @@ class Evaluator:
 
     # ------------------------------------------------------------ conditions
     def cond(self, test, st: State, fn: FuncInfo, depth: int):
-        """Yield (state, bool)."""
+        """Yield (state, bool) - or (state, CMP_TYPEERROR) where evaluating the test raises TypeError (None < 0)."""
         if isinstance(test, ast.UnaryOp) and isinstance(test.op, ast.Not):
             for st2, b in self.cond(test.operand, st, fn, depth):
-                yield st2, not b
+                yield st2, (b if b is CMP_TYPEERROR else not b)
             return
         if isinstance(test, ast.BoolOp):
             is_and = isinstance(test.op, ast.And)
@@ -357,7 +409,7 @@ class Evaluator:
                     yield s, is_and
                     return
                 for s2, b in self.cond(test.values[i], s, fn, depth):
-                    if b != is_and:
+                    if b is CMP_TYPEERROR or b != is_and:
                         yield s2, b
                     else:
                         yield from rec(i + 1, s2)
@@ -414,6 +466,12 @@ class Evaluator:
                     yield st, opn == "IsNot"
                     return
             yield from self.fork(("cmp", opn, _key(l), _key(r)), st)
+            return
+        if opn in ("Lt", "LtE", "Gt", "GtE") and (l == NONE or r == NONE) and not (l == NONE and r == NONE and False):
+            # None < 0: TypeError (an 'undefined' register value that reaches a range check)
+            st2 = st.copy()
+            st2.notes = st2.notes + ("TypeError: ordering comparison with None in %s" % text[:60],)
+            yield st2, CMP_TYPEERROR
             return
         if l[0] == "const" and r[0] == "const":
             try:
@@ -513,6 +571,9 @@ class Evaluator:
             return
         if isinstance(e, ast.IfExp):
             for st2, truth in self.cond(e.test, st, fn, depth):
+                if truth is CMP_TYPEERROR:
+                    yield st2, ("typeerror", "ordering comparison with None in %s" % norm(e.test)[:60])
+                    continue
                 yield from self.expr(e.body if truth else e.orelse, st2, fn, depth)
             return
         if isinstance(e, ast.UnaryOp):
@@ -555,7 +616,7 @@ class Evaluator:
         if isinstance(e, ast.Compare):
             done = False
             for st2, truth in self.cond(e, st, fn, depth):
-                yield st2, const(truth)
+                yield st2, (("typeerror", "ordering comparison with None in %s" % norm(e)[:60]) if truth is CMP_TYPEERROR else const(truth))
             return
         if isinstance(e, ast.Subscript):
             for st2, b in self.expr(e.value, st, fn, depth):
@@ -580,6 +641,9 @@ class Evaluator:
             return
         if isinstance(e, ast.JoinedStr):
             yield st, obj("str")
+            return
+        if isinstance(e, ast.List) and not e.elts:
+            yield st, obj("vals", ())
             return
         if isinstance(e, (ast.Tuple, ast.List)):
             vals = []
